@@ -60,6 +60,17 @@ type ZOuter struct {
 	Meta   *map[string]int
 }
 
+// ZPersonE embeds an exported struct type through a pointer (nil unless the description has a
+// "City" entry): promoted fields City / Zip exist only when the pointer is set
+type ZAddrE struct {
+	City string
+	Zip  int
+}
+type ZPersonE struct {
+	*ZAddrE
+	Name string
+}
+
 func ZPtr(e *E) *E         { return &E{K: "ptr", A: []*E{e}} }
 func ZTime(u int64) *E     { return &E{K: "time", I: u} }
 func ZT(e *E, m string) *E { cp := *e; cp.M = m; return &cp }
@@ -312,6 +323,17 @@ func zooGo(e *E, variant int) interface{} {
 				out[e.Ks[i]] = zooGo(e.A[i], variant)
 			}
 			return out
+		case "ptrembed", "ptrembedlist":
+			p := &ZPersonE{Name: "pe"}
+			for _, i := range idx {
+				if e.Ks[i] == "City" {
+					p.ZAddrE = &ZAddrE{City: e.A[i].S, Zip: 7}
+				}
+			}
+			if e.M == "ptrembedlist" {
+				return []*ZPersonE{p, {Name: "second"}}
+			}
+			return p
 		case "nilptrstruct":
 			return (*ZStruct)(nil)
 		case "nilptrmap":
